@@ -131,7 +131,7 @@ def run(ctx):
 # --------------------------------------------------------------------------- (V)
 
 DROP = {"Bolt", "WriteCache", "CreateCache", "SyncFragment", "SyncOther", "Open", "Mkdir"}
-UNIT_ACTS = {"AppendOp", "AppendOpRoaring", "AppendOpHeader", "AppendOpPayload", "CreateSnapTmp", "WriteSnapChunk",
+UNIT_ACTS = {"AppendOp", "AppendOpRoaring", "AppendOps", "AppendOpHeader", "AppendOpPayload", "CreateSnapTmp", "WriteSnapChunk",
              "RenameSnap", "CreateFragmentFile", "InitFragment"}
 PLAIN_ACTS = {"CreateMetaTmp", "WriteMetaTmp", "RenameMeta", "TranslateWrite", "TranslateSync"}
 
@@ -143,7 +143,7 @@ def begin_event(step, evs_of_step):
     kind, key, budget = "bit", False, {}
     if op == "SetBit":
         if fld == "m":
-            kind, budget = "multi", {"i/m": 2, "i/_exists": 1}     # clear of the old row + set
+            kind, budget = "multi", {"i/m": 1, "i/_exists": 1}     # clear of the old row + set, one write
         else:
             budget = {"i/" + fld: 1, "i/_exists": 1}
     elif op == "SetTime":
@@ -151,7 +151,7 @@ def begin_event(step, evs_of_step):
     elif op == "ClearBit":
         budget = {"i/" + fld: 1}
     elif op == "SetValue":
-        kind, budget = "multi", {"i/v": 16, "i/_exists": 1}       # one entry per bit row
+        kind, budget = "multi", {"i/v": 1, "i/_exists": 1}        # one entry per bit row, one write
     elif op in ("SetKeyed", "ImportKeyed"):
         # keys that exist already need no translate-log entry: whether one is written is
         # read off the trace (its protocol is then validated)
@@ -161,7 +161,7 @@ def begin_event(step, evs_of_step):
         kind, budget = "roaring", {"i/f": 1}
     elif op == "Import":
         if fld == "m" and not step.get("clear"):
-            kind, budget = "batch2", {"i/m": 2, "i/_exists": 1}
+            kind, budget = "batch2", {"i/m": 1, "i/_exists": 1}
         else:
             budget = {"i/" + fld: 1, "i/_exists": 1}
     elif op == "ImportValue":
@@ -169,7 +169,7 @@ def begin_event(step, evs_of_step):
         # from MaxOpN; the path taken is read off the trace, then validated
         small = any(e.get("act", "").startswith("AppendOp") and e.get("unit", "").startswith("i/v/") for e in evs_of_step)
         if small:
-            kind, budget = "batch2", {"i/v": 2, "i/_exists": 1}
+            kind, budget = "batch2", {"i/v": 1, "i/_exists": 1}
         else:
             kind, budget = "large", {"i/v": 0, "i/_exists": 1}
     elif op in ("Store", "ClearRow"):
@@ -208,7 +208,10 @@ def history_events(h):
             continue
         if act in UNIT_ACTS:
             u = e["unit"]
-            out.append({"e": "AppendOp" if act == "AppendOpRoaring" else act, "u": u, "fld": "/".join(u.split("/")[:2])})
+            # one write(2) = one AppendOp of the model, whether it carries one entry, a roaring
+            # entry with its payload, or all entries of a multi-entry write
+            out.append({"e": "AppendOp" if act in ("AppendOpRoaring", "AppendOps") else act, "u": u,
+                        "fld": "/".join(u.split("/")[:2])})
         elif act in PLAIN_ACTS:
             out.append({"e": act})
         else:
@@ -274,12 +277,11 @@ def validate_traces(ctx, trace_path):
 
 # cfg -> (expected counterexample?, what it says)
 MC_QUICK = [
-    ("C09_mc_quick", False, "code as it is now, 2 writes of every kind x 2 fragments (1 bit) x translate store: RestartSucceeds, AckedDurable, LeftoversIgnored at every kill point"),
-    ("C09_mc_multi", True, "multi-entry writes (int Set, value import, mutex Set/import): InflightAtomicPerShard fails (open findings)"),
+    ("C09_mc_quick", False, "code as it is now, 2 writes of every kind x 2 fragments (1 bit) x translate store: RestartSucceeds, AckedDurable, InflightAtomicPerShard, LeftoversIgnored at every kill point"),
+    ("C09_mc_asfound_multi", True, "code as found: multi-entry writes (int Set, value import, mutex Set/import) one write(2) per entry: InflightAtomicPerShard fails"),
 ]
 MC_THOROUGH = [
-    ("C09_mc_fixed", False, "as C09_mc_quick with 2 bits per fragment"),
-    ("C09_mc_atomic", False, "single-entry / roaring / row-op writes: InflightAtomicPerShard holds and the model refines DurabilityAbs"),
+    ("C09_mc_fixed", False, "as C09_mc_quick with 2 bits per fragment, plus the refinement Durability => DurabilityAbs"),
     ("C09_mc_deep", False, "4 writes (1 bit, kinds bit/roaring/rowop)"),
     ("C09_mc_asfound_restart", True, "code as found: a kill after the roaring header write blocks restart"),
     ("C09_mc_asfound_translate", True, "code as found: a kill inside a chunked translate entry blocks restart"),
